@@ -341,10 +341,26 @@ impl Walker {
             }
             let subset: Option<Vec<VehicleIdx>> = if self.rng.chance(1, 3) {
                 None
+            } else if self.rng.chance(1, 3) {
+                // a vehicle after its successor in the rotation (any order of distinct vehicles is a valid argument)
+                let v = *self.rng.pick(&reals)?;
+                let succ = s.next_day_transition_of(s.vehicle_type_of(v).unwrap()).get_successor_of(v);
+                if succ != v {
+                    Some(vec![succ, v])
+                } else {
+                    Some(vec![v])
+                }
             } else {
                 let mut vs: Vec<VehicleIdx> = reals.iter().copied().filter(|_| self.rng.chance(1, 2)).collect();
                 if vs.is_empty() {
                     vs.push(reals[0]);
+                }
+                if self.rng.chance(1, 2) {
+                    // not only ascending ids
+                    for i in (1..vs.len()).rev() {
+                        let j = self.rng.below(i + 1);
+                        vs.swap(i, j);
+                    }
                 }
                 Some(vs)
             };
